@@ -124,7 +124,7 @@ def _worker(payload):
     from vx import harness
 
     if not os.environ.get("VX_NO_RLIMIT"):
-        harness.limit_memory(8.0)
+        harness.limit_memory(3.0)
     rec = Rec()
     try:
         fn(rec, arg)
